@@ -40,6 +40,8 @@ SIG_NONFINITE = "|nonfinite-proposal-accepted"
 SIG_MEAN = "|nonzero-prior-mean"
 SIG_DIM1 = "|dim1-raises"
 SIG_PROPMEAN = "|proposal-nonzero-mean"
+SIG_NOTCENTRED = "|proposal-not-centred"
+SIG_DTYPE = "|initial-point-dtype"
 
 
 # ------------------------------------------------------------------------------------------------
@@ -82,6 +84,15 @@ class Tgt:
 
     # ---- what CUQIpy calls (plain float numpy) ----
     def f(self, x):
+        v = self._f(x)
+        rt = self.spec.get("ret")
+        if rt == "array1":
+            return np.array([v])
+        if rt == "zerod":
+            return np.array(v)
+        return v
+
+    def _f(self, x):
         x = np.asarray(x, dtype=float).reshape(-1)
         self.calls.append(x.copy())
         if self.kind == "lattice":
@@ -276,7 +287,7 @@ class Driver:
                 self.target = T.f            # plain callable: the sampler wraps it itself and needs dim=
             else:
                 self.target = cuqi.distribution.UserDefinedDistribution(dim=T.dim, logpdf_func=T.f, gradient_func=T.g)
-            self.eval_f = lambda x: (T.f(x), T.calls.pop())[0]
+            self.eval_f = lambda x: (T._f(x), T.calls.pop())[0]
             self.eval_g = T.g
 
     def _build_sampler(self, scale, x0):
@@ -288,8 +299,12 @@ class Driver:
         d = self.T.dim
         # ---- the declaration style of the initial point ----
         xf = o.get("x0form", "array")
+        strided = np.zeros(2 * d)
+        strided[::2] = x0
         x0arg = {"array": x0, "list": [float(v) for v in x0], "tuple": tuple(float(v) for v in x0), "none": None,
-                 "cuqi": cuqi.array.CUQIarray(x0.copy(), geometry=cuqi.geometry._DefaultGeometry1D(d))}[xf]
+                 "cuqi": cuqi.array.CUQIarray(x0.copy(), geometry=cuqi.geometry._DefaultGeometry1D(d)),
+                 "int": np.array([int(v) for v in x0]), "float32": x0.astype(np.float32), "strided": strided[::2],
+                 "scalar": float(x0[0])}[xf]
         if xf == "none":
             x0 = np.ones(d)
         # ---- optional proposal= ----
@@ -301,8 +316,19 @@ class Driver:
                     r = super().sample(*a, **k)
                     drv.xi_seen.append(np.array(r, dtype=float).reshape(-1))
                     return r
-            cov = float(pr["cov"]) if np.ndim(pr["cov"]) == 0 else np.array(pr["cov"], dtype=float)
-            kw["proposal"] = SpyProposal(np.array(pr["mean"], dtype=float), cov)
+            fam = pr.get("family", "gauss")
+            if fam == "gauss":
+                cov = float(pr["cov"]) if np.ndim(pr["cov"]) == 0 else np.array(pr["cov"], dtype=float)
+                kw["proposal"] = SpyProposal(np.array(pr["mean"], dtype=float), cov)
+            else:
+                base_ = cuqi.distribution.Uniform if fam == "uniform" else cuqi.distribution.Cauchy
+
+                class SpyFam(base_):
+                    def sample(self, *a, **k):
+                        r = super().sample(*a, **k)
+                        drv.xi_seen.append(np.array(r, dtype=float).reshape(-1))
+                        return r
+                kw["proposal"] = SpyFam(np.array(pr["p1"], dtype=float), np.array(pr["p2"], dtype=float))
         elif pr is not None and self.kind == "cw":
             if pr == "locscale":
                 kw["proposal"] = cuqi.distribution.Normal(mean=lambda location: location, std=lambda scale: scale, geometry=d)
@@ -349,6 +375,8 @@ class Driver:
             cls = {"mh": Lg.MH, "cw": Lg.CWMH, "pcn": Lg.pCN, "mala": Lg.MALA, "ula": Lg.ULA}[self.kind]
             self.s = cls(self.target, scale=sc, x0=x0arg, **kw)
             self.cur = (x0.copy(), self.eval_f(x0), self.eval_g(x0) if self.kind in ("mala", "ula") else np.zeros(0))
+        if o.get("reassign_scale") is not None:          # attribute re-assigned on the live object
+            self.s.scale = o["reassign_scale"]
         self.T.calls.clear()
 
     @staticmethod
@@ -416,7 +444,7 @@ class Driver:
         with ScriptedRandom(seed=h["seed"]), _quiet(), np.errstate(all="ignore"):
             if self.iface == "exp":
                 if h["type"] == "warmup":
-                    self.s.warmup(h["n"])
+                    self.s.warmup(h["n"], tune_freq=h.get("tune_freq", 0.1))
                 else:                                   # reload: state of ANOTHER sampler object that ran n steps
                     other = Driver(self.site, self.T, h["scale2"], h["x02"], prior=self.prior_spec, opts=self.opts)
                     other.s.sample(h["n"])
@@ -453,8 +481,15 @@ class Driver:
                 rec["ret"] = np.array(ret, dtype=float).reshape(-1)
                 return np.array(ret, dtype=float).reshape(a[2]) if len(a) > 2 else ret
             if kind == "rand":
+                if a or k:
+                    rec["unexpected"].append("rand%r" % (a,))
                 return us.pop(0) if us else 0.5
             if kind == "uniform":
+                if np.ndim(a[0]) > 0:              # a Uniform(low, high) proposal distribution: noise slots mapped to [0,1]
+                    v = np.clip((z + 2.0) / 4.0, 0.0, 1.0)
+                    return (np.array(a[0], dtype=float) + (np.array(a[1], dtype=float) - np.array(a[0], dtype=float)) * v).reshape(a[2])
+                if len(a) < 2 or float(a[0]) != 0.0 or float(a[1]) != 1.0:
+                    rec["unexpected"].append("uniform%r" % (a[:2],))      # the accept draw must be U(0,1)
                 u = us.pop(0) if us else 0.5
                 return np.full(a[2], u) if len(a) > 2 else u
             rec["unexpected"].append(kind)
@@ -463,6 +498,8 @@ class Driver:
         err = None
         if self.rng is not None:
             self.rng.begin(z, us, rec)
+        if isinstance(self.opts.get("proposal"), dict) and self.opts["proposal"].get("family") == "cauchy":
+            np.random.seed(int(abs(z[0]) * 1000) + 17)
         with ScriptedRandom(seed=1, script=script) as R, np.errstate(all="ignore"), _quiet():
             try:
                 if self.iface == "exp":
@@ -525,6 +562,8 @@ class _RngMixin:
             ret = np.full(size, u) if size is not None else u
         else:
             ret = real(low, high, size)
+        if float(low) != 0.0 or float(high) != 1.0:
+            self.__dict__.setdefault("rec", {}).setdefault("unexpected", []).append("uniform(%r,%r)" % (low, high))
         self.us_seen.append(float(np.ravel(ret)[0]))
         return ret
 
@@ -641,6 +680,28 @@ def true_log_ratio(drv, scr, x, xs):
     return b - a + log_q(x, mu2, G2) - log_q(xs, mu1, G1)
 
 
+def family_logq(pr, t):
+    """log-density (independent formulas) of the noise vector t under a Uniform(p1, p2) / Cauchy(p1, p2) proposal distribution"""
+    p1, p2 = np.array(pr["p1"], dtype=float), np.array(pr["p2"], dtype=float)
+    t = np.asarray(t, dtype=float)
+    if pr["family"] == "uniform":
+        if np.all(t >= p1 - 1e-12) and np.all(t <= p2 + 1e-12):
+            return -float(np.sum(np.log(p2 - p1)))
+        return -math.inf
+    return -float(np.sum(np.log(math.pi * p2 * (1.0 + ((t - p1) / p2) ** 2))))
+
+
+def family_log_ratio(drv, pr, x, xs, sc):
+    a, b = log_pi(drv, x), log_pi(drv, xs)
+    if isinstance(a, str) or isinstance(b, str):
+        return None
+    fwd = family_logq(pr, (np.asarray(xs) - np.asarray(x)) / sc)
+    bwd = family_logq(pr, (np.asarray(x) - np.asarray(xs)) / sc)
+    if fwd == -math.inf:
+        return None
+    return b - a + bwd - fwd
+
+
 def pick_u(rng, strat, thr, delta=None):
     """uniform whose log sits where `strat` says relative to the log-threshold thr (<= 0)"""
     if strat == "tie":
@@ -687,6 +748,7 @@ def guards(ctx):
     if "g" not in _STATE:
         _STATE["g"] = {site: probe_guard(site) for site in SITES if SITES[site]["kind"] not in ("ula",)}
         _STATE["c"] = {site: probe_centered(site) for site in ("E.PCN", "L.pCN")}
+        DIM1_CW[0] = not (_witness_dim1(ctx, "E.CWMH")[0] or _witness_dim1(ctx, "L.CWMH")[0])
     return _STATE
 
 
@@ -756,7 +818,15 @@ def build_case(ctx, spec):
     st = guards(ctx)
     opts = spec.get("opts") or {}
     real_rng = opts.get("rng") in ("randomstate", "generator")
-    drv = Driver(site, T, spec["scale"], spec["x0"], prior=spec.get("prior"), opts=opts)
+    try:
+        drv = Driver(site, T, spec["scale"], spec["x0"], prior=spec.get("prior"), opts=opts)
+    except ValueError as e:
+        pr_ = opts.get("proposal") if isinstance(opts.get("proposal"), dict) else {}
+        asym = any(v != 0 for v in pr_.get("mean", [0])) or (pr_.get("family") == "uniform" and any(a_ != -b_ for a_, b_ in zip(pr_["p1"], pr_["p2"])))
+        spec = dict(spec, refused=str(e)[:200])
+        fail_ = None if asym else "the sampler refused a legitimate configuration: %s" % e
+        return Case(expr="true", meta=spec, cell="%s/opt:%s/refused" % (site, spec.get("optcell", "")), kind="DECISION", impl_fail=fail_,
+                    signature=(SITES[site]["sig"] + "|refuses-valid-configuration") if fail_ else ""), {"tune_log": []}
     prev_obj = drv.s.current_point if not legacy else None          # keep-alive: the object holding the state before
     drv.history(spec["hist"])
     x0, ld0, gr0 = drv.state()
@@ -803,6 +873,9 @@ def build_case(ctx, spec):
 
     def flag(msg, s):
         nonlocal fail, sig
+        if site == "E.CWMH" and s in ("|state-cache", "|accept-rule") and opts.get("x0form") in ("int", "float32") \
+                and "tune()" not in msg:
+            s = SIG_DTYPE
         if fail is None:
             fail, sig = msg, info["sig"] + s
 
@@ -842,7 +915,15 @@ def build_case(ctx, spec):
                 tot = sum(m_ * m_ for m_ in mis) / s_
                 exact = exact and all(is_dyadic_small(m_ * m_, 48) for m_ in mis) and is_dyadic_small(tot, 48)
         thr = None
-        if xs_pred is not None and not isinstance(log_pi(drv, x0), str):
+        pr_ = opts.get("proposal") if isinstance(opts.get("proposal"), dict) else None
+        nongauss = kind == "mh" and pr_ is not None and pr_.get("family", "gauss") != "gauss"
+        if nongauss:
+            exact = False
+            if xs_pred is not None:
+                rho = family_log_ratio(drv, pr_, x0, xs_pred, sc if vscale else float(sc[0]))
+            if rho is not None and not math.isnan(rho):
+                thr = min(0.0, rho)
+        elif xs_pred is not None and not isinstance(log_pi(drv, x0), str):
             rho = true_log_ratio(drv, scr, x0, xs_pred)
             if rho is not None and not math.isnan(rho):
                 thr = min(0.0, rho)
@@ -935,15 +1016,17 @@ def build_case(ctx, spec):
             elif rho is not None and not math.isnan(rho) and not isinstance(e_star, str):
                 thr = min(0.0, rho)
                 lu = logus[0]
-                margin = 1e-7 * (1 + abs(thr))
+                margin = 1e-7 * (1 + abs(thr)) if math.isfinite(thr) else 0.0
                 if abs(lu - thr) > margin or (lu == 0.0 and rho > margin):
                     exp_acc = lu <= thr
                     if exp_acc != acc:
                         s_ = "|accept-rule"
                         if kind == "pcn" and any(v != 0 for v in spec["prior"]["mean"]):
                             s_ = SIG_MEAN
-                        if kind == "mh" and opts.get("proposal") and any(v != 0 for v in opts["proposal"]["mean"]):
+                        if kind == "mh" and opts.get("proposal") and any(v != 0 for v in opts["proposal"].get("mean", [0])):
                             s_ = SIG_PROPMEAN
+                        if kind == "mh" and opts.get("proposal") and opts["proposal"].get("family", "gauss") != "gauss":
+                            s_ = SIG_NOTCENTRED
                         flag("x=%s x'=%s log u=%.12g: MH log-ratio of the proposal actually used = %.12g so the transition must %s, "
                              "the sampler %s" % (x0.tolist(), xs.tolist(), lu, rho, "accept" if exp_acc else "reject",
                                                  "accepted" if acc else "rejected"), s_)
@@ -1007,10 +1090,12 @@ def build_case(ctx, spec):
         expr = "false"
     elif kind == "mh":
         xi_in = o["xi"] if (opts.get("proposal") and o["xi"] is not None) else z
-        expr = "%s %s %s %s %s %s %s %s %s %s %s %s %s" % (
+        fam_ = (opts.get("proposal") or {}).get("family", "gauss") if isinstance(opts.get("proposal"), dict) else "gauss"
+        expr = "%s %s %s %s %s %s %s %s %s %s %s %s %s %s" % (
             "check_mh_v" if vscale else "check_mh",
             tolq, Tc, g, cqvec(sc) if vscale else cq(float(sc[0])), cstate(x0, ld0, gr0), cqvec(xi_in), cext(logus[0]),
-            cqvec(o["stars"][0] if o["stars"] else []), cstate(x1, ld1, gr1), cbool(o["acc"]), logc, cbool(legacy))
+            cqvec(o["stars"][0] if o["stars"] else []), cstate(x1, ld1, gr1), cbool(o["acc"]), logc, cbool(legacy),
+            cnat({"gauss": 0, "cauchy": 6, "uniform": 7}[fam_]))
     elif kind == "cw":
         expr = "check_cwmh %s %s %s %s %s %s %s %s %s %s %s %s %s" % (
             tolq, Tc, g, cqvec(sc), cstate(x0, ld0, gr0), cqvec(z), clist([cext(l) for l in logus]),
@@ -1079,15 +1164,18 @@ def lin_constant(site, tspec, prior):
     return frac(v) - T.F(fr(xr))
 
 
+DIM1_CW = [True]          # CWMH on one-dimensional targets (possible since fix 94c30bb; probed in run())
 HOLE_CLASSES = [None, "star:nan", "star:ninf", "star:pinf", "cur:nan", "cur:ninf"]
 USTRATS = ["tie", "below", "above", "rand", "below", "above", "rand", "zero"]
 
 
-def gen_spec(ctx, site, fam, hc, hist, idx):
+def gen_spec(ctx, site, fam, hc, hist, idx, dim=None):
     rng = ctx.rng
     info = SITES[site]
     kind = info["kind"]
-    d = rng.choice([2, 3] if kind == "cw" else [1, 2, 3])
+    d = rng.choice([1, 2, 3] if (kind != "cw" or DIM1_CW[0]) else [2, 3])
+    if dim is not None:
+        d = dim
     hole = None if hc is None else hc.split(":")[1]
     tspec = gen_target(rng, fam, d, hole)
     prior = None
@@ -1254,6 +1342,24 @@ def option_cells():
     for site in SITES:
         for xf in ("list", "none", "cuqi"):
             cells.append((site, "x0=" + xf, {"x0form": xf}, {}))
+    for site in SITES:
+        for xf in ("int", "float32", "strided"):
+            cells.append((site, "x0=" + xf, {"x0form": xf}, {}))
+        cells.append((site, "x0=zeros", {}, {"x0zeros": True}))
+        if SITES[site]["kind"] != "cw":
+            cells.append((site, "x0=scalar,dim=1", {"x0form": "scalar"}, {"dim": 1}))
+        if SITES[site]["kind"] != "pcn":
+            for rt in ("array1", "zerod"):
+                cells.append((site, "logd-returns=" + rt, {}, {"ret": rt}))
+        cells.append((site, "scale-reassigned", {}, {"reassign": True}))
+        if SITES[site]["iface"] == "exp":
+            cells.append((site, "reload-of-zero-logd", {}, {"zero_reload": True}))
+        for nb in (1, 9, 10, 11):
+            cells.append((site, "warmup-n=%d" % nb, {}, {"warm_n": nb}))
+    for site in ("E.MH", "L.MH"):
+        cells.append((site, "proposal=uniform-symmetric", {"proposal": {"family": "uniform", "sym": True}}, {}))
+        cells.append((site, "proposal=uniform-asymmetric", {"proposal": {"family": "uniform", "sym": False}}, {}))
+        cells.append((site, "proposal=cauchy-symmetric", {"proposal": {"family": "cauchy", "sym": True}}, {}))
     for site in ("L.MH", "L.CWMH"):
         cells.append((site, "target=lambda+dim", {"target_form": "lambda"}, {}))
         cells.append((site, "target=lambda+dim,x0=none", {"target_form": "lambda", "x0form": "none"}, {}))
@@ -1298,8 +1404,34 @@ def option_cases(ctx):
             hist = "fresh" if (extra.get("mag") or rep_ % 2 == 0) else rng.choice(["warmup", "reload"])
             if opts.get("rng") == "scripted":
                 hist = "fresh"
-            spec = gen_spec(ctx, site, fam, None, hist, idx)
+            if extra.get("warm_n"):
+                hist = "warmup"
+            spec = gen_spec(ctx, site, fam, None, hist, idx, dim=extra.get("dim"))
             d = len(spec["x0"])
+            if extra.get("warm_n"):
+                n_ = extra["warm_n"]
+                if SITES[site]["iface"] == "leg":
+                    n_ = max(n_, 10)                  # legacy sample_adapt: Na = int(0.1 N) must be >= 1
+                spec["hist"]["n"] = n_
+                spec["hist"]["tune_freq"] = rng.choice([0.1, 0.5, 0.05, 1.0])
+            if extra.get("zero_reload"):
+                # the reloaded state has cached log-density exactly 0.0 (and a zero gradient): quadratic target at its mode, c = 0,
+                # checkpoint taken before any step
+                spec = gen_spec(ctx, site, "quad", None, "reload", idx, dim=extra.get("dim"))
+                d = len(spec["x0"])
+                spec["target"]["c"] = 0
+                spec["hist"]["n"] = 0
+                spec["hist"]["x02"] = list(spec["target"]["m"])
+                if kind == "pcn":
+                    spec["prior"] = {"mean": [0.0] * d, "cov": 1.0}
+            if extra.get("x0zeros"):
+                spec["x0"] = [0.0] * d
+            if opts.get("x0form") == "int":
+                spec["x0"] = [float(rng.randint(-2, 1)) for _ in range(d)]
+                if spec["hist"]["type"] == "reload":
+                    spec["hist"]["x02"] = [float(rng.randint(-2, 1)) for _ in range(d)]
+            if extra.get("ret"):
+                spec["target"]["ret"] = extra["ret"]
             # option cells never use scale 1 (where s, s^2 and sqrt(s) coincide)
             fix1 = lambda v: 0.5 if v == 1.0 else v
             spec["scale"] = [fix1(v) for v in spec["scale"]] if isinstance(spec["scale"], list) else fix1(spec["scale"])
@@ -1308,7 +1440,16 @@ def option_cases(ctx):
             o = {}
             for k_, v_ in opts.items():
                 o[k_] = v_
-            if isinstance(o.get("proposal"), dict):
+            if isinstance(o.get("proposal"), dict) and o["proposal"].get("family"):
+                fam_, sym_ = o["proposal"]["family"], o["proposal"]["sym"]
+                if fam_ == "uniform":
+                    hw = [rng.choice([1.0, 2.0, 0.5]) for _ in range(d)]
+                    o["proposal"] = {"family": "uniform", "p1": [-h_ for h_ in hw] if sym_ else [0.0] * d, "p2": hw}
+                else:
+                    o["proposal"] = {"family": "cauchy", "p1": [0.0] * d, "p2": [rng.choice([1.0, 0.5, 2.0]) for _ in range(d)]}
+                if not sym_:
+                    spec["ustrat"] = "between"
+            elif isinstance(o.get("proposal"), dict):
                 o["proposal"] = {"mean": [0.0] * d if o["proposal"]["mean"] == 0 else [float(rng.choice([-1, 1, 2])) for _ in range(d)],
                                  "cov": spd(rng, d, o["proposal"]["cov"])}
                 if any(o["proposal"]["mean"]):
@@ -1320,6 +1461,9 @@ def option_cases(ctx):
                 spec["x0"] = [1.0] * d
                 if hist == "reload":
                     spec["hist"]["x02"] = [1.0] * d
+            if extra.get("reassign"):
+                o["reassign_scale"] = rng.choice([0.25, 0.5, 0.125]) if kind not in ("mala", "ula") else rng.choice([0.25, 1 / 16])
+                spec["hist"]["type"] = "fresh"
             if extra.get("vscale"):
                 spec["scale"] = [rng.choice([1.0, 0.5, 0.25, 2.0, 0.3]) for _ in range(d)]
                 spec["hist"]["type"] = "fresh"
@@ -1386,49 +1530,64 @@ def tune_cases(ctx, recs):
 
 
 def legacy_adapt_cases(ctx):
-    """legacy sample_adapt of MH / pCN: the scale after each of the first adaptation steps (read through the callback)
-    against the model run on the acceptance flags recovered from the returned chain"""
-    import cuqi
+    """legacy sample_adapt of MH / pCN / CWMH: the scale after each of the first adaptation steps (read through the callback)
+    against the model run on the acceptance flags recovered from the returned chain (CWMH: per component; its recorded chain
+    is shifted by one column because single_update writes into the previous column -- C14 finding -- which is detected)"""
     rng = ctx.rng
     out = []
-    for site in ("L.MH", "L.pCN"):
+    for site in ("L.MH", "L.pCN", "L.CWMH"):
         kind = SITES[site]["kind"]
         for rep_ in range(ctx.n(2, 10)):
-            d = rng.choice([1, 2])
+            d = rng.choice([2, 3]) if kind == "cw" else rng.choice([1, 2])
             tspec = gen_target(rng, "quad", d, None)
             T = Tgt(tspec)
             prior = {"mean": [0.0] * d, "cov": 1.0} if kind == "pcn" else None
-            scale0 = rng.choice([0.5, 0.25, 1.0, 0.125])
+            scale0 = [rng.choice([0.5, 0.25, 1.0, 0.125]) for _ in range(d)] if kind == "cw" else rng.choice([0.5, 0.25, 1.0, 0.125])
             x0 = [dy(rng, -2, 1, 4) for _ in range(d)]
             N = rng.choice([20, 30])
             drv = Driver(site, T, scale0, x0, prior=prior)
-            seen = []
-            drv.s.callback = lambda smp, i_: seen.append((int(i_), float(np.ravel(drv.s.scale)[0])))
+            seen = {}
+
+            def cb(smp, i_):
+                seen[int(i_)] = np.array(drv.s.scale, dtype=float).reshape(-1).copy()
+            drv.s.callback = cb
             seed = rng.randint(0, 10 ** 6)
             with ScriptedRandom(seed=seed), _quiet(), np.errstate(all="ignore"):
                 r = drv.s.sample_adapt(N)
             S = np.array(r.samples, dtype=float)
-            acc = [1] + [int(not np.array_equal(S[:, k_ + 1], S[:, k_])) for k_ in range(S.shape[1] - 1)]
+            if np.array_equal(S[:, 0], np.array(x0)):
+                states = [S[:, t] for t in range(S.shape[1])]
+            else:                                         # shifted recording (legacy CWMH)
+                states = [np.array(x0, dtype=float)] + [S[:, t] for t in range(S.shape[1] - 1)]
+            ncomp = d if kind == "cw" else 1
+            if kind == "cw":
+                acc = [[1] * d] + [[int(a_ != b_) for a_, b_ in zip(states[t], states[t - 1])] for t in range(1, len(states))]
+            else:
+                acc = [[1]] + [[int(not np.array_equal(states[t], states[t - 1]))] for t in range(1, len(states))]
             Na = int(0.1 * N)
-            star = "star_mh" if kind == "mh" else "star_pcn"
-            scales = dict(seen)
-            term = cr(scale0)
-            for j in range(3):
-                a = sum(acc[j * Na:(j + 1) * Na])
-                term = "(tune_temp %s %d (hat_acc %d %d) %s)" % (term, j + 1, a, Na, star)
-                obs = scales.get(Na * (j + 1))
-                if obs is None:
-                    break
-                fail = None if (0 < obs <= 1) else "legacy sample_adapt: scale %r outside (0, 1] after adaptation %d" % (obs, j + 1)
-                if obs < 1:
-                    expr = "(Rabs (%s - %s) <= %s)%%R" % (term, cr(obs), cr(1e-9))
-                else:
-                    expr = "(1 - %s <= %s)%%R" % (cr(1e-9), term)
-                meta = {"op": "legacy_adapt", "site": site, "target": tspec, "scale0": scale0, "x0": x0, "N": N, "seed": seed,
-                        "adaptation": j + 1, "acc": acc[:(j + 1) * Na], "observed_scale": obs}
-                out.append(Case(expr=expr, meta=_jsonable(meta), cell="%s/sample_adapt" % site, kind="ENCLOSURE",
-                                tac="unfold tune_temp, zeta, hat_acc, star_mh, star_pcn; interval with (i_prec 80).",
-                                impl_fail=fail, signature=(SITES[site]["sig"].rsplit(".", 1)[0] + ".sample_adapt|scale-out-of-bounds") if fail else ""))
+            star = {"mh": "star_mh", "pcn": "star_pcn", "cw": "(star_cw %d)" % d}[kind]
+            for c in range(ncomp):
+                term = cr(scale0[c] if kind == "cw" else scale0)
+                for j in range(3):
+                    win = acc[j * Na:(j + 1) * Na]
+                    if len(win) < Na:
+                        break
+                    a = sum(w[c] for w in win)
+                    term = "(tune_temp %s %d (hat_acc %d %d) %s)" % (term, j + 1, a, Na, star)
+                    if Na * (j + 1) not in seen:
+                        break
+                    sv = seen[Na * (j + 1)]
+                    obs = float(sv[c] if len(sv) > c else sv[0])
+                    fail = None if (0 < obs <= 1) else "legacy sample_adapt: scale %r outside (0, 1] after adaptation %d" % (obs, j + 1)
+                    if obs < 1:
+                        expr = "(Rabs (%s - %s) <= %s)%%R" % (term, cr(obs), cr(1e-9))
+                    else:
+                        expr = "(1 - %s <= %s)%%R" % (cr(1e-9), term)
+                    meta = {"op": "legacy_adapt", "site": site, "target": tspec, "scale0": scale0, "x0": x0, "N": N, "seed": seed,
+                            "adaptation": j + 1, "component": c, "acc": [w[c] for w in acc[:(j + 1) * Na]], "observed_scale": obs}
+                    out.append(Case(expr=expr, meta=_jsonable(meta), cell="%s/sample_adapt" % site, kind="ENCLOSURE",
+                                    tac="unfold tune_temp, zeta, hat_acc, star_mh, star_pcn, star_cw; interval with (i_prec 80).",
+                                    impl_fail=fail, signature=(SITES[site]["sig"].rsplit(".", 1)[0] + ".sample_adapt|scale-out-of-bounds") if fail else ""))
     return out
 
 
@@ -1674,8 +1833,28 @@ def _witness_propmean(ctx, site):
     return (c.impl_fail is not None and c.signature.endswith(SIG_PROPMEAN)), (c.impl_fail or "decision agrees with the MH probability of the proposal used")
 
 
+def _witness_notcentred(ctx, site):
+    spec = {"site": site, "target": {"kind": "quad", "P": [[1.0]], "m": [0.0], "c": 0, "hole": None}, "prior": None,
+            "scale": 1.0, "x0": [0.0], "z": [0.0], "hist": {"type": "fresh", "seed": 0, "n": 0}, "ustrat": "between",
+            "hole_class": None, "exact": False, "opts": {"proposal": {"family": "uniform", "p1": [0.0], "p2": [1.0]}},
+            "optcell": "proposal=uniform-asymmetric"}
+    c, _ = build_case(ctx, spec)
+    return (c.impl_fail is not None and c.signature.endswith(SIG_NOTCENTRED)), (c.impl_fail or "decision agrees with the MH probability of the proposal used")
+
+
+def _witness_dtype(ctx):
+    spec = {"site": "E.CWMH", "target": {"kind": "quad", "P": [[1.0, 0.0], [0.0, 1.0]], "m": [0.0, 0.0], "c": 0, "hole": None}, "prior": None,
+            "scale": [0.5, 0.5], "x0": [1.0, 0.0], "z": [-0.5, 0.5], "hist": {"type": "fresh", "seed": 0, "n": 0}, "ustrat": ["tie", "tie"],
+            "u": [1.0, 0.5], "hole_class": None, "exact": True, "opts": {"x0form": "int"}, "optcell": "x0=int"}
+    c, _ = build_case(ctx, spec)
+    return (c.impl_fail is not None and c.signature.endswith(SIG_DTYPE)), (c.impl_fail or "accepted coordinates are stored as proposed")
+
+
 def known_witnesses(ctx):
     out = {}
+    out[SITES["E.CWMH"]["sig"] + SIG_DTYPE] = _witness_dtype(ctx)
+    for site in ("E.MH", "L.MH"):
+        out[SITES[site]["sig"] + SIG_NOTCENTRED] = _witness_notcentred(ctx, site)
     for site in ("E.MH", "L.MH"):
         out[SITES[site]["sig"] + SIG_PROPMEAN] = _witness_propmean(ctx, site)
     for site in ("L.MH", "L.CWMH", "L.pCN", "E.PCN", "L.MALA"):
